@@ -153,6 +153,11 @@ def rule_S(ck):
     if m is None:
         return
     TERR = "microscpi_macros::tree::Error"
+    # the collision error type: the enum of the macro crate with the variants CommandExists / QueryExists (the variant names
+    # are what the user reads in the compile error; the enum's own name and module are free)
+    for e_ in m.facts.get("enums", []):
+        if {"CommandExists", "QueryExists"} <= {v_["name"] for v_ in e_["variants"]}:
+            TERR = e_["path"]
     tree_fns = [b for b in m.facts["bodies"] if b["def"].startswith("microscpi_macros::tree::") and b["kind"] in ("Fn", "AssocFn") and "::{" not in b["def"] and not b.get("trait")]
     result_fns = {hir.base_path(b["def"]) for b in m.facts["bodies"] if TERR in (b.get("ret") or "")}
     n_store = n_occ = n_prop = 0
